@@ -170,7 +170,7 @@ def _check_encoded_group(es, old_msg, old_mask, cur, origin, dt, n, bp, hl, R):
             H.eq(H.warnings(OdxWarning) > 0, H.Or(overlap)))
 
 
-@harness(props=["C01", "C02", "C04", "C08"], strength="E", family=int_family,
+@harness(props=["C01", "C02", "C03", "C04", "C08"], strength="E", family=int_family,
          functions=[EncodeState.emplace_atomic_value, EncodeState.emplace_bytes, EncodeState.__post_init__],
          covers=["accepted", "rejected"], assumes=["A-bitstruct"], use_contracts=["bcd"])
 def encode_int(dt, enc, n, bp, hl):
@@ -304,7 +304,7 @@ def float_family(tier, seed):
     return out
 
 
-@harness(props=["C01", "C02", "C04", "C08"], strength="E", family=float_family,
+@harness(props=["C01", "C02", "C03", "C04", "C08"], strength="E", family=float_family,
          functions=[EncodeState.emplace_atomic_value, EncodeState.emplace_bytes], covers=["accepted", "rejected"],
          assumes=["A-bitstruct", "A-float"])
 def encode_float(dt, n, bp, hl):
@@ -373,7 +373,7 @@ def bytes_family(tier, seed):
     return out
 
 
-@harness(props=["C01", "C02", "C04", "C08"], strength="E", family=bytes_family,
+@harness(props=["C01", "C02", "C03", "C04", "C08"], strength="E", family=bytes_family,
          functions=[EncodeState.emplace_atomic_value, EncodeState.emplace_bytes], covers=["accepted", "rejected"],
          assumes=["A-bitstruct"])
 def encode_bytefield(enc, n, hl):
@@ -553,3 +553,127 @@ def encode_any_type(dt, enc, n, kind):
         H.check("C04:rejections-are-odxtools-errors-never-foreign-exceptions", False)
         return
     H.cover("accepted")
+
+
+# ---------------------------------------------------------------------------------------------------------------
+# K5: StandardLengthType with BIT-MASK
+from odxtools.standardlengthtype import StandardLengthType  # noqa: E402
+
+MASKS = {8: [0xff, 0x0f, 0x3c, 0x81], 16: [0xffff, 0x0ff0, 0xf00f, 0x03fc]}
+
+
+def _mask_family(tier, seed):
+    out = []
+    for n in (8, 16):
+        for m in MASKS[n]:
+            for bp in ((0, 2) if tier == "quick" else (0, 1, 2, 5)):
+                for hl in (True, False):
+                    for condensed in (False, True):
+                        if condensed and n > 8:
+                            continue  # (the bit-by-bit condensing loops over 16 symbolic bits exceed the solver budget)
+                        out.append({"n": n, "bit_mask": m, "bp": bp, "hl": hl, "condensed": condensed})
+    return out
+
+
+@harness(props=["C02", "C04", "C08"], strength="E", family=_mask_family,
+         functions=[StandardLengthType.encode_into_pdu, StandardLengthType.decode_from_pdu,
+                    StandardLengthType.get_static_bit_length, StandardLengthType._StandardLengthType__apply_mask,
+                    StandardLengthType._StandardLengthType__unapply_mask,
+                    StandardLengthType._StandardLengthType__get_used_mask],
+         covers=["accepted"], assumes=["A-bitstruct"])
+def standard_length_with_bit_mask(n, bit_mask, bp, hl, condensed):
+    """STANDARD-LENGTH-TYPE with BIT-MASK: what the encoder accepts decodes back to the value; only the masked bits are
+    claimed; a reported static bit length is the number of bits the encoding occupies"""
+    dct = StandardLengthType(base_data_type=DataType.A_UINT32, base_type_encoding=None, bit_length=n, bit_mask=bit_mask,
+                             is_highlow_byte_order_raw=hl, is_condensed_raw=condensed)
+    es, cur, origin = _encode_state(bp)
+    H.assume(len(es.coded_message) <= cur)  # the object is appended
+    v = H.int("v", 0)
+    try:
+        dct.encode_into_pdu(v, es)
+    except OdxError:
+        return
+    except Exception:
+        H.check("C04:rejections-are-odxtools-errors-never-foreign-exceptions", False)
+        return
+    H.cover("accepted")
+    ds = DecodeState(coded_message=bytes(es.coded_message), cursor_byte_position=cur, cursor_bit_position=bp)
+    try:
+        back = dct.decode_from_pdu(ds)
+    except Exception:
+        H.check("C04:what-the-encoder-accepts-decodes", False)
+        return
+    H.check("C04:accepted-value-decodes-back-no-bits-dropped-silently", back == v)
+    static = dct.get_static_bit_length()
+    occupied = 8 * (es.cursor_byte_position - cur)
+    H.check("C08:static-bit-length-is-what-the-encoding-occupies",
+            occupied == 8 * W.group_len(static, bp))
+    H.check("C02:decoder-consumes-what-the-encoder-produced", ds.cursor_byte_position == es.cursor_byte_position)
+
+
+# ---------------------------------------------------------------------------------------------------------------
+# K1: EncodeState.emplace_bytes, all quantities symbolic (P): data and mask of symbolic length; the masked byte loop is
+# discharged by an inductive invariant
+from pyvc.loops import for_invariant  # noqa: E402
+
+
+def _ext(ext_old, j):
+    """byte j of the zero-extended old array (non-forking, for use under quantifiers)"""
+    return H.byte_at(ext_old, j)
+
+
+@for_invariant(EncodeState.emplace_bytes, 0, modifies=["self.coded_message", "self.used_mask"])
+def inv_emplace_bytes(i, self, new_data, obj_used_mask, old_coded_message, old_used_mask):
+    """after i iterations: lengths are final; bytes [pos, pos+i) hold the merged data and their mask is or-ed; every
+    other byte is as on loop entry"""
+    pos = self.cursor_byte_position
+    cm, um = self.coded_message, self.used_mask
+    return H.And(
+        len(cm) == len(old_coded_message), len(um) == len(old_used_mask),
+        H.forall(0, len(cm), lambda j: H.ite(
+            H.And(pos <= j, j < pos + i),
+            H.And(H.byte_at(cm, j) == ((H.byte_at(old_coded_message, j) & (H.byte_at(obj_used_mask, j - pos) ^ 255)) |
+                                       (H.byte_at(new_data, j - pos) & H.byte_at(obj_used_mask, j - pos))),
+                  H.byte_at(um, j) == (H.byte_at(old_used_mask, j) | H.byte_at(obj_used_mask, j - pos))),
+            H.And(H.byte_at(cm, j) == H.byte_at(old_coded_message, j),
+                  H.byte_at(um, j) == H.byte_at(old_used_mask, j)))))
+
+
+@harness(props=["C02"], strength="P", family=lambda t, s: [{"with_mask": False}, {"with_mask": True}],
+         functions=[EncodeState.emplace_bytes], covers=["done"], crosscheck=False)
+def emplace_bytes_contract(with_mask):
+    """emplace_bytes with data (and mask) of any length at any cursor: whole-view postcondition - zero extension to
+    max(old length, cursor + n), masked merge of the n bytes at the cursor, mask or-ed, everything else unchanged,
+    cursor advanced by n"""
+    es, cur, origin = _encode_state(0)
+    data = H.bytes("data")
+    n = len(data)
+    m = H.bytes("obj_mask") if with_mask else None
+    if with_mask:
+        H.assume(len(m) == n)
+    old_len = len(es.coded_message)
+    old_msg = W.extend(H.snapshot(es.coded_message), cur + n)
+    old_mask = W.extend(H.snapshot(es.used_mask), cur + n)
+    if with_mask:
+        es.emplace_bytes(data, obj_used_mask=m)
+    else:
+        es.emplace_bytes(data)
+    H.cover("done")
+    new, new_mask = es.coded_message, es.used_mask
+    H.check("C02:pdu-length-is-max-of-old-and-end-of-object",
+            H.And(len(new) == H.ite(old_len > cur + n, old_len, cur + n), len(new_mask) == len(new)))
+    H.check("C02:cursor-advances-by-the-number-of-bytes", es.cursor_byte_position == cur + n)
+    if with_mask:
+        H.check("C02:masked-merge-whole-view",
+                H.forall(0, len(new), lambda j: H.ite(
+                    H.And(cur <= j, j < cur + n),
+                    H.And(H.byte_at(new, j) == ((_ext(old_msg, j) & (H.byte_at(m, j - cur) ^ 255)) |
+                                                (H.byte_at(data, j - cur) & H.byte_at(m, j - cur))),
+                          H.byte_at(new_mask, j) == (_ext(old_mask, j) | H.byte_at(m, j - cur))),
+                    H.And(H.byte_at(new, j) == _ext(old_msg, j), H.byte_at(new_mask, j) == _ext(old_mask, j)))))
+    else:
+        H.check("C02:overwrite-whole-view",
+                H.forall(0, len(new), lambda j: H.ite(
+                    H.And(cur <= j, j < cur + n),
+                    H.And(H.byte_at(new, j) == H.byte_at(data, j - cur), H.byte_at(new_mask, j) == 255),
+                    H.And(H.byte_at(new, j) == _ext(old_msg, j), H.byte_at(new_mask, j) == _ext(old_mask, j)))))
